@@ -338,8 +338,9 @@ def run_check(pid, pc, tier, seed, repo, work, t0, replay):
         'wall_s': round(wall, 2),
         'violations': nviol,
     }
-    os.makedirs(os.path.join(VERIF, 'evidence'), exist_ok=True)
-    json.dump(ev, open(os.path.join(VERIF, 'evidence', pid + '.json'), 'w'), indent=1)
+    evdir = os.environ.get('VERIF_EVIDENCE_DIR') or os.path.join(VERIF, 'evidence')
+    os.makedirs(evdir, exist_ok=True)
+    json.dump(ev, open(os.path.join(evdir, pid + '.json'), 'w'), indent=1)
     if rc == 0:
         print('OK property=%s tier=%s obligations=%d discharged=%d wall=%.1fs' % (pid, tier, obligations, discharged, wall))
     return rc
